@@ -3,6 +3,7 @@ package main
 import (
 	"bytes"
 	"fmt"
+	"github.com/klauspost/compress/zstd"
 	"io"
 	"strings"
 
@@ -111,6 +112,14 @@ func runCompress(lines []string) {
 			w := lz4.NewWriter(&buf)
 			_, _ = w.Write(unhx(f[2]))
 			_ = w.Close()
+		case "zstd":
+			w, err := zstd.NewWriter(&buf)
+			if err == nil {
+				_, _ = w.Write(unhx(f[2]))
+				_ = w.Close()
+			}
+		case "-", "none":
+			buf.Write(unhx(f[2]))
 		}
 		fmt.Fprintln(out, "compressed", f[1], hx(buf.Bytes()))
 	}
